@@ -58,6 +58,9 @@ type c17Case struct {
 	// Body, when set, is the request body as it is SPELLED (defaulted opcode, other letter case, extra fields);
 	// Ops is always what the script MEANS, in the canonical spelling, and is what the reference state is computed from.
 	Body string `json:"body,omitempty"`
+	// Expect, when set, is what the monitor's own symbol tracking says about the error conditions of the script:
+	// "fail" (a condition is true, or malformed: nothing may be applied) or "succeed" (every condition is false).
+	Expect string `json:"expect,omitempty"`
 }
 
 func cloneOps(ops []c17Op) []c17Op {
@@ -302,6 +305,98 @@ func c17CondValueVariants(ops []c17Op, i int) (names []string, out map[string][]
 	}
 
 	return names, out
+}
+
+// ---------------------------------------------------------------- conditions on symbols that a later operation reloads
+
+// c17ReloadScripts: scripts in which select / symbols operations overwrite the same symbol names with different values, each
+// followed by an operation whose error condition is true for one of the two values only; and conditions on the counters
+// _rows_ / _all_rows_ after each operation; and single-operation scripts vetoed by a true or malformed condition.
+// The template holds rows id=1..36 of t with uq = 999+id, so the value a select loads is known to the monitor.
+func c17ReloadScripts() []c17Case {
+	var out []c17Case
+
+	sel := func(id int) c17Op {
+		return c17Op{Operation: "select", Table: "t", Filters: []string{fmt.Sprintf("EQ(id,%d)", id)}, Columns: []string{"uq"}}
+	}
+
+	upd := func(id int, mark, cond string) c17Op {
+		o := c17Op{Operation: "update", Table: "t", Filters: []string{fmt.Sprintf("EQ(id,%d)", id)}, Data: map[string]any{"grp": mark}}
+		if cond != "" {
+			o.Errors = []c17Err{{Condition: cond, Status: 409, Message: "guard"}}
+		}
+
+		return o
+	}
+
+	upd3 := func(lo int, mark, cond string) c17Op {
+		o := c17Op{Operation: "update", Table: "t", Filters: []string{fmt.Sprintf("AND(GE(id,%d),LE(id,%d))", lo, lo+2)}, Data: map[string]any{"grp": mark}}
+		if cond != "" {
+			o.Errors = []c17Err{{Condition: cond, Status: 409, Message: "guard"}}
+		}
+
+		return o
+	}
+
+	syms := func(v int) c17Op {
+		return c17Op{Operation: "symbols", Data: map[string]any{"amount": v, "label": fmt.Sprintf("v%d", v)}}
+	}
+
+	add := func(name, expect string, ops ...c17Op) {
+		out = append(out, c17Case{Ops: ops, Variant: "reload:" + name, Pos: -1, Expect: expect})
+	}
+
+	// select loads uq=1000 (id 1), later uq=1019 (id 20), then uq=1004 (id 5); no guard is true for the value it sees first
+	add("select:stale-false/fresh-true", "fail", sel(1), upd(10, "a", "GT(uq,5000)"), sel(20), upd(11, "b", "GT(uq,1010)"))
+	add("select:stale-true/fresh-false", "succeed", sel(1), upd(10, "a", "GT(uq,5000)"), sel(20), upd(11, "b", "LT(uq,1010)"))
+	add("select:third-load-true", "fail", sel(1), upd(10, "a", "GT(uq,5000)"), sel(20), upd(11, "b", "LT(uq,1010)"), sel(5), upd(12, "c", "LT(uq,1010)"))
+	add("select:third-load-false", "succeed", sel(1), upd(10, "a", "GT(uq,5000)"), sel(20), upd(11, "b", "LT(uq,1010)"), sel(5), upd(12, "c", "GT(uq,1010)"))
+	add("select:guard-on-the-select-itself", "fail", sel(1), upd(10, "a", ""), c17Op{Operation: "select", Table: "t", Filters: []string{"EQ(id,20)"}, Columns: []string{"uq"}, Errors: []c17Err{{Condition: "GT(uq,1010)", Status: 409}}})
+	add("select:equal-to-fresh", "fail", sel(1), sel(20), upd(11, "b", "EQ(uq,1019)"))
+	add("select:equal-to-stale", "succeed", sel(1), sel(20), upd(11, "b", "EQ(uq,1000)"))
+
+	// the same with values set by symbols operations (a number and a text)
+	add("symbols:stale-false/fresh-true", "fail", syms(5), upd(10, "a", "GT(amount,100)"), syms(50), upd(11, "b", "GT(amount,10)"))
+	add("symbols:stale-true/fresh-false", "succeed", syms(5), upd(10, "a", "GT(amount,100)"), syms(50), upd(11, "b", "LT(amount,10)"))
+	add("symbols:text-fresh-true", "fail", syms(5), upd(10, "a", ""), syms(50), upd(11, "b", `EQ(label,"v50")`))
+	add("symbols:text-stale-true", "succeed", syms(5), upd(10, "a", ""), syms(50), upd(11, "b", `EQ(label,"v5")`))
+	add("symbols:third-load-true", "fail", syms(5), upd(10, "a", ""), syms(50), upd(11, "b", "LT(amount,10)"), syms(7), upd(12, "c", "LT(amount,10)"))
+	// a symbols operation and a select that use the same name
+	add("mixed:select-overwrites-symbol", "fail", c17Op{Operation: "symbols", Data: map[string]any{"uq": 1}}, upd(10, "a", "GT(uq,5)"), sel(20), upd(11, "b", "GT(uq,5)"))
+	add("mixed:symbol-overwrites-select", "succeed", sel(20), upd(10, "a", "LT(uq,5)"), c17Op{Operation: "symbols", Data: map[string]any{"uq": 1}}, upd(11, "b", "GT(uq,5)"))
+
+	// the counters after each operation: _rows_ is this operation's count, _all_rows_ the running total
+	add("rows:second-count-true", "fail", upd(10, "a", "EQ(_rows_,3)"), upd3(20, "b", "EQ(_rows_,3)"))
+	add("rows:first-count-is-stale", "succeed", upd(10, "a", "EQ(_rows_,3)"), upd3(20, "b", "EQ(_rows_,1)"))
+	add("rows:back-to-one", "fail", upd3(20, "a", "EQ(_rows_,1)"), upd(10, "b", "EQ(_rows_,1)"))
+	add("rows:total-true", "fail", upd(10, "a", "EQ(_all_rows_,4)"), upd3(20, "b", "EQ(_all_rows_,4)"))
+	add("rows:total-stale", "succeed", upd(10, "a", "EQ(_all_rows_,4)"), upd3(20, "b", "EQ(_all_rows_,1)"))
+	add("rows:zero-rows", "fail", upd(10, "a", "EQ(_rows_,0)"), upd(-5, "b", "EQ(_rows_,0)"))
+	add("rows:delete-count", "fail", upd(10, "a", ""), c17Op{Operation: "delete", Table: "t", Filters: []string{"AND(GE(id,30),LE(id,31))"}, Errors: []c17Err{{Condition: "EQ(_rows_,2)", Status: 409}}})
+	add("rows:insert-count", "fail", upd3(20, "a", ""), c17Op{Operation: "insert", Table: "t", Data: map[string]any{"id": 4980, "name": "r", "grp": "g", "score": 1.5, "flag": true, "uq": 204980}, Errors: []c17Err{{Condition: "EQ(_rows_,1)", Status: 409}}})
+
+	// single-operation scripts: the only operation succeeds and is then vetoed
+	single := map[string]c17Op{
+		"insert": {Operation: "insert", Table: "t", Data: map[string]any{"id": 4981, "name": "s", "grp": "g", "score": 1.5, "flag": true, "uq": 204981}},
+		"update": {Operation: "update", Table: "t", Filters: []string{"EQ(id,10)"}, Data: map[string]any{"grp": "single"}},
+		"delete": {Operation: "delete", Table: "t", Filters: []string{"EQ(id,10)"}},
+		"sql":    {Operation: "sql", SQL: "UPDATE other SET note='single' WHERE id=1"},
+		"drop":   {Operation: "drop", Table: "dropme"},
+	}
+
+	for _, kind := range []string{"insert", "update", "delete", "sql", "drop"} {
+		for _, cv := range [][2]string{{"true", "EQ(1,1)"}, {"rows-true", "GE(_rows_,0)"}, {"total-true", "GE(_all_rows_,0)"}, {"malformed", "EQ(_rows_"}, {"malformed-operator", "FOO(_rows_,1)"}} {
+			o := cloneOps([]c17Op{single[kind]})[0]
+			o.Errors = []c17Err{{Condition: cv[1], Status: 409, Message: "veto"}}
+			add("single:"+kind+":"+cv[0], "fail", o)
+		}
+
+		o := cloneOps([]c17Op{single[kind]})[0]
+		o.Errors = []c17Err{{Condition: "LT(_rows_,0)", Status: 409}}
+		add("single:"+kind+":false", "succeed", o)
+	}
+
+	return out
 }
 
 // ---------------------------------------------------------------- task spellings
@@ -800,6 +895,16 @@ func TestC17(t *testing.T) {
 			viol("panic", "handler panicked: "+vh.Trunc(resp.Panic, 300), nil)
 		}
 
+		// what the monitor's own symbol tracking says about the conditions of the script
+		switch {
+		case c.Expect == "fail" && resp.Status == 200:
+			viol("condition-not-honoured", "a condition of the script is true (or malformed) for the values the script itself loaded last, yet the script was carried out", nil)
+		case c.Expect == "succeed" && resp.Status != 200:
+			viol("condition-tripped-on-stale-value", "every condition of the script is false for the values in force when it is evaluated, yet the script failed", nil)
+		case c.Expect != "":
+			r.Count("verified.condition-outcome."+c.Expect, 1)
+		}
+
 		// transaction bracket seen by the driver
 		writes, commits, rollbacks := 0, 0, 0
 		conns := map[int]bool{}
@@ -967,6 +1072,15 @@ func TestC17(t *testing.T) {
 		}
 
 		runSpellings("admin", "d_open", probe, []int{0, 1, 2})
+
+		for _, who := range [][2]string{{"admin", "d_open"}, {"sqluser", "d_restricted"}} {
+			for _, c := range c17ReloadScripts() {
+				c := c
+				c.User, c.DSN = who[0], who[1]
+				runCase(&c)
+				r.Count("cases.reloaded-symbols-and-vetoes", 1)
+			}
+		}
 	}
 
 	for k := range known {
